@@ -60,7 +60,7 @@ def run(ctx):
             or d['name'] != 'wide_ops']
     tasks = []
     for sim in SIMS:
-        for d in fam + wide:
+        for d in fam + wide + [{'name': 'long_names', 'params': {'w': 3}}, {'name': 'long_names', 'params': {'w': 1}}]:
             tasks.append(dict(fn='channels', kw=dict(design=d, simname=sim, seed=ctx.seed)))
         for k in (0, 1, 3, 6):
             tasks.append(dict(fn='assertions', kw=dict(simname=sim, fail_at=k)))
@@ -72,7 +72,8 @@ def run(ctx):
         for k in (1, 2, 5):
             for we in (False, True):
                 tasks.append(dict(fn='illegal_mid_sequence', kw=dict(simname=sim, k=k, with_expected=we)))
-    for d in fam + wide + [{'name': 'vcd_names', 'params': {'w': 3}}, {'name': 'vcd_names', 'params': {'w': 1}}]:
+    for d in fam + wide + [{'name': 'vcd_names', 'params': {'w': 3}}, {'name': 'vcd_names', 'params': {'w': 1}},
+                          {'name': 'long_names', 'params': {'w': 3}}]:
         tasks.append(dict(fn='printers', kw=dict(design=d, seed=ctx.seed)))
     for sd in (0, 1, 2):
         tasks.append(dict(fn='compiled_after_direct_connect', kw=dict(seed=ctx.seed + sd)))
